@@ -151,7 +151,9 @@ def mutate(rng, b, v):
         out = bytearray(b)
         kind = rng.choice(["ae-called", "ae-calling", "uid"])
         hostile = rng.choice([b" " * 16, b"\0" * 16, b"ABC\0\0\0\0\0\0\0\0\0\0\0\0\0", "ÄÖÜ".encode("latin-1").ljust(16),
-                              b"\x01\x02\x7f".ljust(16), b"A\\B".ljust(16), b"\xff" * 16, b"  LEAD".ljust(16), b"x" * 16])
+                              b"\x01\x02\x7f".ljust(16), b"A\\B".ljust(16), b"\xff" * 16, b"  LEAD".ljust(16), b"x" * 16,
+                              # a non-ASCII character next to the padding (only decodable with a fallback codec)
+                              b"\xc2\xa0 ANY-SCP".ljust(16), b"ANY-SCP \xc3\xa9".ljust(16), b"\xe9 PEER".ljust(16), b"PEER \xe9 ".ljust(16)])
         if kind == "ae-called":
             out[10:26] = hostile
             return "hostile-bytes", "called-ae", bytes(out)
